@@ -300,6 +300,15 @@ ApplyLeaf(st, s) ==
 RECURSIVE Family(_, _)
 Family(st, h) == {h} \cup UNION {Family(st, k) : k \in {x \in st.H[h].kids : st.H[x].live}}
 
+\* every member of `todo` (view tensors) is re-created from its (already re-created) parent: it gets a new graph node
+\* whose only parent is its parent's current node; parents first
+RECURSIVE Recreate(_, _)
+Recreate(s, todo) ==
+  IF todo = {} THEN s ELSE
+  LET h == CHOOSE x \in todo : s.H[x].par \notin todo
+      s1 == NewNode(s, <<s.H[s.H[h].par].node>>, s.H[h].const, TRUE)
+  IN Recreate([s1 EXCEPT !.H[h].node = Len(s1.N)], todo \ {h})
+
 \* In-place update through target t.  `newc` : buffer cell -> Dual for the cells that change; srcs = operands.
 \* MyGrad performs the update on a COPY of the base's memory and re-creates every registered view on it, so
 \* the family moves to a fresh buffer; aliases outside the family (there are none within one graph epoch,
@@ -349,13 +358,6 @@ InPlace(st, t, newc, srcs, oldIsInput) ==
       st3 == [st2 EXCEPT !.H = [h \in DOMAIN @ |->
                                   IF h = r THEN [@[h] EXCEPT !.buf = nb, !.node = Len(st2.N), !.base = 0, !.par = 0]
                                   ELSE IF h \in fam THEN [@[h] EXCEPT !.buf = nb] ELSE @[h]]]
-      \* every other member of the family is re-created from its (new) parent, parents first
-      RECURSIVE Recreate(_, _)
-      Recreate(s, todo) ==
-        IF todo = {} THEN s ELSE
-        LET h == CHOOSE x \in todo : s.H[x].par \notin todo
-            s1 == NewNode(s, <<s.H[s.H[h].par].node>>, s.H[h].const, TRUE)
-        IN Recreate([s1 EXCEPT !.H[h].node = Len(s1.N)], todo \ {h})
   IN Recreate(st3, fam \ {r})
 
 \* NumPy's rule for assigning a value of shape vs into a selection of shape ish
@@ -513,8 +515,14 @@ SetShapeOK(st, s) == ReshapeOK(st.H[s.t].sh, s.sh) /\ Affine(st.H[s.t].imap, Res
 ApplySetShape(st, s) ==
   LET hr == st.H[s.t] nsh == ResolveShape(s.sh, Size(hr.sh)) IN
   IF s.sh = hr.sh \/ ~st.track THEN [st EXCEPT !.H[s.t].sh = nsh]      \* (the code compares the shapes literally)
+  ELSE IF hr.base = 0
+  \* a memory owner: an in-place update that changes no value - earlier consumers keep the old tensor, the reshaped
+  \* one is a new node (fresh perturbation variables), its gradient is dropped, its views are re-created
+  THEN LET st1 == InPlace(st, s.t, <<>>, <<>>, TRUE) IN [st1 EXCEPT !.H[s.t].sh = nsh]
+  \* a view: it stays a view of its base (whose gradient is untouched); its own registered views are re-created
   ELSE LET st1 == NewNode(st, <<hr.node>>, hr.const, TRUE)
-       IN [st1 EXCEPT !.H[s.t].sh = nsh, !.H[s.t].node = Len(st1.N)]
+           st2 == [st1 EXCEPT !.H[s.t].sh = nsh, !.H[s.t].node = Len(st1.N), !.H[s.t].gc = 0]
+       IN Recreate(st2, Family(st, s.t) \ {s.t})
 \* scopes: only no_autodiff changes what the reference observes (the memory guard is MemGuard.tla's subject)
 ApplyEnter(st, s) == IF s.m = "no_autodiff" THEN [st EXCEPT !.tsaved = Append(@, st.track), !.track = FALSE] ELSE st
 ApplyExit(st, s)  == IF s.m = "no_autodiff" THEN [st EXCEPT !.track = st.tsaved[Len(st.tsaved)], !.tsaved = SubSeq(@, 1, Len(@) - 1)]
